@@ -118,3 +118,60 @@ theorem formatStr_eq_setStr (m : Msa) (f : StrField) (idx : Int) (out : Option B
   all_goals simp_all
 
 end EaselModel.Msa
+
+namespace EaselModel.Msa
+
+/-- well-formedness does not look at the seven strings the Set/Format family writes (only at the widths of the three
+    per-sequence arrays) -/
+theorem WF_of_sameButStrings (a b : Msa) (h : SameButStrings a b) (h1 : a.sqname.length = b.sqname.length)
+    (h2 : a.sqacc.length = b.sqacc.length) (h3 : a.sqdesc.length = b.sqdesc.length) (wf : b.WF) : a.WF := by
+  obtain ⟨e1, e2, e3, e4, e5, e6, e7, e8, e9, e10, e11, e12, e13, e14, e15, e16, e17, e18, e19, e20, e21⟩ := h
+  have hterm : a.rowTerm = b.rowTerm := by simp [Msa.rowTerm, Msa.isDigital, e3]
+  constructor
+  · rw [e1]; exact wf.nseq_pos
+  · rw [e3]; exact wf.flags_lt
+  · rw [e5, e1]; exact wf.rows_len
+  · rw [e5, e2, hterm]; exact wf.rows_ok
+  · rw [h1, e1]; exact wf.sqname_len
+  · rw [e6, e1]; exact wf.wgt_len
+  · rw [h2, e1]; exact wf.sqacc_len
+  · rw [h3, e1]; exact wf.sqdesc_len
+  · rw [e12, e1]; exact wf.ss_len
+  · rw [e13, e1]; exact wf.sa_len
+  · rw [e14, e1]; exact wf.pp_len
+  · rw [e12, e2]; exact wf.ss_ok
+  · rw [e13, e2]; exact wf.sa_ok
+  · rw [e14, e2]; exact wf.pp_ok
+  · rw [e7, e2]; exact wf.ss_cons_ok
+  · rw [e8, e2]; exact wf.sa_cons_ok
+  · rw [e9, e2]; exact wf.pp_cons_ok
+  · rw [e10, e2]; exact wf.rf_ok
+  · rw [e11, e2]; exact wf.mm_ok
+  · rw [e20, e2]; exact wf.gc_ok
+  · rw [e21, e1]; exact wf.gr_len
+  · rw [e21, e2]; exact wf.gr_ok
+  · rw [e19, e1]; exact wf.gs_len
+
+theorem setStr_lens (m : Msa) (f : StrField) (idx : Int) (s : Option Bytes) (n : Int) :
+    (setStr m f idx s n).msa.sqname.length = m.sqname.length ∧ (setStr m f idx s n).msa.sqacc.length = m.sqacc.length ∧
+    (setStr m f idx s n).msa.sqdesc.length = m.sqdesc.length := by
+  cases f <;> simp only [setStr]
+  all_goals (repeat' split)
+  all_goals simp
+
+theorem formatStr_lens (m : Msa) (f : StrField) (idx : Int) (out : Option Bytes) :
+    (formatStr m f idx out).msa.sqname.length = m.sqname.length ∧ (formatStr m f idx out).msa.sqacc.length = m.sqacc.length ∧
+    (formatStr m f idx out).msa.sqdesc.length = m.sqdesc.length := by
+  cases f <;> simp only [formatStr]
+  all_goals (repeat' split)
+  all_goals simp
+
+theorem setStr_wf (m : Msa) (wf : m.WF) (f : StrField) (idx : Int) (s : Option Bytes) (n : Int) : (setStr m f idx s n).msa.WF :=
+  WF_of_sameButStrings _ m (setStr_same m f idx s n) (setStr_lens m f idx s n).1 (setStr_lens m f idx s n).2.1
+    (setStr_lens m f idx s n).2.2 wf
+
+theorem formatStr_wf (m : Msa) (wf : m.WF) (f : StrField) (idx : Int) (out : Option Bytes) : (formatStr m f idx out).msa.WF :=
+  WF_of_sameButStrings _ m (formatStr_same m f idx out) (formatStr_lens m f idx out).1 (formatStr_lens m f idx out).2.1
+    (formatStr_lens m f idx out).2.2 wf
+
+end EaselModel.Msa
